@@ -471,6 +471,24 @@ fn unshare_impl(w: &mut World, paddr: u64, buf: NonNull<[u8]>, dir: BufferDirect
             ),
         );
     }
+    if bounce && w.hal.poison_posted && r.dir == Dir::FromDev && v0 == vaddr && r.len == len {
+        // The caller's copy was filled when the buffer was shared; nobody on the driver side may
+        // touch a device-writable buffer until its completion has been consumed. A byte that
+        // changed was written by the driver while the device owned the buffer: on a platform that
+        // shares in place (no bounce copy) that store lands on top of what the device wrote.
+        let cur = unsafe { std::slice::from_raw_parts(vaddr as *const u8, len) };
+        if let Some(k) = cur.iter().position(|&b| b != w.hal.posted_fill) {
+            let fill = w.hal.posted_fill;
+            let n = cur.iter().filter(|&&b| b != fill).count();
+            w.fault(
+                "share",
+                format!(
+                    "the driver stored into a device-writable buffer while it was shared with the device: {} byte(s) of {:#x}+{} changed between share and unshare, first at offset {} (now {:#x}); on a platform that shares buffers in place this overwrites what the device wrote there",
+                    n, vaddr, len, k, cur[k]
+                ),
+            );
+        }
+    }
     let h = &mut w.hal;
     if bounce && r.dir != Dir::ToDev && v0 == vaddr && r.len == len {
         // copy device-written data back *now*
